@@ -291,9 +291,11 @@ def run_cases(cases, cfg="plain", jobs=None, stall_timeout=60, on_result=None, c
 
     def collect(r):
         with lock:
-            results.append(r)
             if on_result:
+                # the caller consumes each result as it arrives: nothing is kept (a thorough tier runs millions of cases)
                 on_result(r)
+            else:
+                results.append(r)
 
     if not cases:
         return results
